@@ -19,3 +19,60 @@ Definition finalizer_target_mapof : string := "cache".
 Definition finalizer_target_def_mapof : string := "&xsyncMapOfWrapper[K, V]{c}".
 Definition finalizer_body_mapof : string := "{ close(m.stop) }".
 
+(* ---- call budgets of the cache methods (translator: harness/srcfacts/skeleton.go) ---- *)
+Inductive stok := TLoad | TStore | TCompute | TLoadAndDelete | TDelete | TClear | TSize | TSnapshot
+  | TNow | TDflt | TWDflt | TCb | TWCb | TFire | TUserFn
+  | TLoadOrStore | TLoadAndStore | TLoadOrCompute | TUnknown.
+
+(* xsync_map.go: call budgets of the methods of xsyncMap (see harness/srcfacts/skeleton.go) *)
+Definition budgets_map : list (string * (list (stok * option nat) * nat)) := [
+  ("Clear", ([(TClear, Some 1)], 0));
+  ("Compute", ([(TCompute, Some 1)], 1));
+  ("Count", ([(TSize, Some 1)], 0));
+  ("DefaultExpiration", ([(TDflt, Some 1)], 0));
+  ("Delete", ([(TCb, Some 1); (TFire, Some 1); (TLoadAndDelete, Some 1); (TNow, Some 1)], 0));
+  ("DeleteExpired", ([(TCb, Some 1); (TCompute, None); (TFire, None); (TNow, Some 1); (TSnapshot, Some 1)], 0));
+  ("EvictedCallback", ([(TCb, Some 1)], 0));
+  ("Get", ([(TCompute, Some 1); (TLoad, Some 1); (TNow, Some 1)], 0));
+  ("GetAndDelete", ([(TCb, Some 1); (TFire, Some 1); (TLoadAndDelete, Some 1); (TNow, Some 1)], 0));
+  ("GetAndRefresh", ([(TCompute, Some 1)], 0));
+  ("GetAndSet", ([(TCompute, Some 1)], 0));
+  ("GetOrCompute", ([(TCompute, Some 1)], 1));
+  ("GetOrSet", ([(TCompute, Some 1)], 0));
+  ("GetWithExpiration", ([(TCompute, Some 1); (TLoad, Some 1); (TNow, Some 1)], 0));
+  ("GetWithTTL", ([(TCompute, Some 1); (TLoad, Some 1); (TNow, Some 2)], 0));
+  ("Items", ([(TNow, Some 1); (TSnapshot, Some 1); (TSize, Some 1); (TUserFn, None)], 0));
+  ("Range", ([(TNow, Some 1); (TSnapshot, Some 1); (TUserFn, None)], 0));
+  ("Set", ([(TDflt, Some 1); (TNow, Some 1); (TStore, Some 1)], 0));
+  ("SetDefault", ([(TDflt, Some 1); (TNow, Some 1); (TStore, Some 1)], 0));
+  ("SetDefaultExpiration", ([(TWDflt, Some 1)], 0));
+  ("SetEvictedCallback", ([(TWCb, Some 1)], 0));
+  ("SetForever", ([(TDflt, Some 1); (TNow, Some 1); (TStore, Some 1)], 0))
+].
+
+(* xsync_mapof.go: call budgets of the methods of xsyncMapOf (see harness/srcfacts/skeleton.go) *)
+Definition budgets_mapof : list (string * (list (stok * option nat) * nat)) := [
+  ("Clear", ([(TClear, Some 1)], 0));
+  ("Compute", ([(TCompute, Some 1)], 1));
+  ("Count", ([(TSize, Some 1)], 0));
+  ("DefaultExpiration", ([(TDflt, Some 1)], 0));
+  ("Delete", ([(TCb, Some 1); (TFire, Some 1); (TLoadAndDelete, Some 1); (TNow, Some 1)], 0));
+  ("DeleteExpired", ([(TCb, Some 1); (TCompute, None); (TFire, None); (TNow, Some 1); (TSnapshot, Some 1)], 0));
+  ("EvictedCallback", ([(TCb, Some 1)], 0));
+  ("Get", ([(TCompute, Some 1); (TLoad, Some 1); (TNow, Some 1)], 0));
+  ("GetAndDelete", ([(TCb, Some 1); (TFire, Some 1); (TLoadAndDelete, Some 1); (TNow, Some 1)], 0));
+  ("GetAndRefresh", ([(TCompute, Some 1)], 0));
+  ("GetAndSet", ([(TCompute, Some 1)], 0));
+  ("GetOrCompute", ([(TCompute, Some 1)], 1));
+  ("GetOrSet", ([(TCompute, Some 1)], 0));
+  ("GetWithExpiration", ([(TCompute, Some 1); (TLoad, Some 1); (TNow, Some 1)], 0));
+  ("GetWithTTL", ([(TCompute, Some 1); (TLoad, Some 1); (TNow, Some 2)], 0));
+  ("Items", ([(TNow, Some 1); (TSnapshot, Some 1); (TSize, Some 1); (TUserFn, None)], 0));
+  ("Range", ([(TNow, Some 1); (TSnapshot, Some 1); (TUserFn, None)], 0));
+  ("Set", ([(TDflt, Some 1); (TNow, Some 1); (TStore, Some 1)], 0));
+  ("SetDefault", ([(TDflt, Some 1); (TNow, Some 1); (TStore, Some 1)], 0));
+  ("SetDefaultExpiration", ([(TWDflt, Some 1)], 0));
+  ("SetEvictedCallback", ([(TWCb, Some 1)], 0));
+  ("SetForever", ([(TDflt, Some 1); (TNow, Some 1); (TStore, Some 1)], 0))
+].
+
